@@ -667,12 +667,14 @@ int _vnadata_load_npd(vnadata_internal_t *vdip, FILE *fp, const char *filename)
 		z0_ports = count;
 	    }
 	    if (z0_vector == NULL) {
-		if ((z0_vector = calloc(z0_ports,
+		/* a Zin vector of zero ports still has one z0 entry */
+		if ((z0_vector = calloc(MAX(z0_ports, 1),
 				sizeof(double complex))) == NULL) {
 		    _vnadata_error(vdip, VNAERR_SYSTEM,
 			    "calloc: %s", strerror(errno));
 		    goto out;
 		}
+		z0_vector[0] = VNADATA_DEFAULT_Z0;
 	    }
 	    for (int port = 0; port < z0_ports; ++port) {
 		double re = 0.0, im = 0.0;
@@ -901,11 +903,13 @@ int _vnadata_load_npd(vnadata_internal_t *vdip, FILE *fp, const char *filename)
 	    goto out;
 	}
     } else if (fz0) {
-	if ((z0_vector = calloc(ports, sizeof(double complex))) == NULL) {
+	if ((z0_vector = calloc(MAX(ports, 1),
+			sizeof(double complex))) == NULL) {
 	    _vnadata_error(vdip, VNAERR_SYSTEM,
 		    "calloc: %s", strerror(errno));
 	    goto out;
 	}
+	z0_vector[0] = VNADATA_DEFAULT_Z0;
     }
 
     /*
